@@ -207,6 +207,13 @@ class Gen:
                 items.append(self.mcall() if self.ready_methods() and self.r.random() < 0.7 else
                              self.int_expr() if not self.lists or self.r.random() < 0.6 else self.r.choice(self.lists))
                 kinds.append("expr")
+            # definitions are loaded before the expressions run, so the LAST EXPRESSION of the request is the last
+            # non-definition item: it must not be a `for` (known finding C11/trailing-for-not-run)
+            defs = ("fun", "enum", "struct", "method")
+            body_kinds = [kd for kd in kinds[len(kinds) - len(items):] if kd not in defs]
+            if body_kinds and body_kinds[-1] == "for" and not self.allow_trailing_for:
+                items.append(self.int_expr())
+                kinds.append("expr")
             inputs.append("\n".join(items) + "\n")
         return inputs, kinds
 
